@@ -497,7 +497,20 @@ void file_server::main(std::string file_name)
 			&& (have_index || list_directories_)
 		) 
 		{
-			response().set_redirect_header(file_name + "/");
+			// file_name is the percent-decoded request path as received: redirect to its
+			// normal form, percent-encoded, so that the header is one line naming this site
+			std::string normal = file_name;
+			normalize_path(normal);
+			std::string location;
+			for(size_t i=0;i<normal.size();i++) {
+				if(normal[i]=='/')
+					location += '/';
+				else
+					location += util::urlencode(normal.substr(i,1));
+			}
+			if(location != "/")
+				location += '/';
+			response().set_redirect_header(location);
 			response().out()<<std::flush;
 			return;
 		}
